@@ -98,6 +98,7 @@ class State:
     def havoc_heap(self, keep=()):
         """Forget everything about the heap except the arrays named in `keep` (and ghost arrays)."""
         old_arr = dict(self.arr)
+        keep = tuple(keep) + tuple(getattr(self.ctx, 'stable_fields', ()))
         kept = {k: v for k, v in self.arr.items() if k in keep or k.startswith('g:') or k in ('C', 'A')}
         # class ids of existing objects never change
         old_epoch = self.epoch
@@ -106,13 +107,14 @@ class State:
                 kept[k] = z3.Const(f'H{old_epoch}.{k}', arr_sort(k))
         if 'C' not in kept:
             kept['C'] = z3.Const(f'H{old_epoch}.C', arr_sort('C'))
+        kept_names = set(kept)
         self.arr = kept
         self.epoch = self.ctx.new_epoch()
         # objects allocated by this execution that never escaped keep their contents (unknown code cannot reach them)
         for oid in sorted(self.private):
             o = z3.IntVal(oid)
             for name, a_old in old_arr.items():
-                if name in kept:
+                if name in kept_names:
                     continue
                 self.arr[name] = z3.Store(self.get_arr(name), o, z3.Select(a_old, o))
 
